@@ -1,4 +1,140 @@
-// harnesses for the private items of the hooked module (see lib/registry.py)
+// Harnesses for the private accumulator of geo::algorithm::centroid (property C06).
+// Decided here: the dimension-dominance algebra of the accumulator (complete over dimensions x finite f64 up to 1e100),
+// None <=> nothing added, the early-outs of the add_* methods, the zero-area fall-back.  The numeric clauses
+// (centre of mass within tolerance, hull containment, scaling covariance) are NOT decided.
+use super::*;
+use crate::dimensions::Dimensions;
+use crate::Centroid;
+use geo_types::{Coord, CoordNum, Line, LineString, MultiLineString, MultiPoint, Point, Polygon};
+
+include!(concat!(env!("GEO_VERIF_DIR"), "/contracts/kani/common.rs"));
+
+#[cfg(kani)]
+fn any_dim() -> Dimensions {
+    let k: u8 = kani::any();
+    kani::assume(k < 4);
+    match k { 0 => Dimensions::Empty, 1 => Dimensions::ZeroDimensional, 2 => Dimensions::OneDimensional, _ => Dimensions::TwoDimensional }
+}
+#[cfg(kani)]
+fn any_f() -> f64 { let v: f64 = kani::any(); kani::assume(v.is_finite() && v.abs() <= 1.0e100); v }
+#[cfg(kani)]
+fn any_wc() -> WeightedCentroid<f64> {
+    WeightedCentroid { weight: any_f(), accumulated: Coord { x: any_f(), y: any_f() }, dimensions: any_dim() }
+}
+
+/// add_assign / sub_assign: higher dimension wins, lower is ignored, equal dimensions combine componentwise
+#[cfg(kani)]
+#[kani::proof]
+fn c06_k_weighted_centroid_algebra() {
+    let (a, b) = (any_wc(), any_wc());
+    let sub: bool = kani::any();
+    let mut r = WeightedCentroid { weight: a.weight, accumulated: a.accumulated, dimensions: a.dimensions };
+    let b2 = WeightedCentroid { weight: b.weight, accumulated: b.accumulated, dimensions: b.dimensions };
+    if sub { r.sub_assign(b2) } else { r.add_assign(b2) }
+    if a.dimensions < b.dimensions {
+        assert!(r.dimensions == b.dimensions && r.weight.to_bits() == b.weight.to_bits());
+        assert!(r.accumulated.x.to_bits() == b.accumulated.x.to_bits() && r.accumulated.y.to_bits() == b.accumulated.y.to_bits());
+    } else if a.dimensions > b.dimensions {
+        assert!(r.dimensions == a.dimensions && r.weight.to_bits() == a.weight.to_bits());
+        assert!(r.accumulated.x.to_bits() == a.accumulated.x.to_bits() && r.accumulated.y.to_bits() == a.accumulated.y.to_bits());
+    } else {
+        assert!(r.dimensions == a.dimensions);
+        let w = if sub { a.weight - b.weight } else { a.weight + b.weight };
+        let x = if sub { a.accumulated.x - b.accumulated.x } else { a.accumulated.x + b.accumulated.x };
+        assert!(r.weight.to_bits() == w.to_bits() || (r.weight.is_nan() && w.is_nan()));
+        assert!(r.accumulated.x.to_bits() == x.to_bits() || (r.accumulated.x.is_nan() && x.is_nan()));
+    }
+}
+
+/// None exactly when nothing was added; dimensions track the highest-dimensional contribution
+#[cfg(kani)]
+#[kani::proof]
+fn c06_k_operation_none_iff_empty() {
+    let mut op = CentroidOperation::<f64>::new();
+    assert!(op.centroid().is_none() && op.centroid_dimensions() == Dimensions::Empty);
+    let c = Coord { x: 3.0, y: -2.0 };
+    op.add_coord(c);
+    assert!(op.centroid() == Some(Point(c)) && op.centroid_dimensions() == Dimensions::ZeroDimensional);
+    // a second, higher-dimensional contribution replaces the points; a lower one is ignored
+    let (d, w) = (any_dim(), 2.0);
+    kani::assume(d != Dimensions::Empty);
+    op.add_centroid(d, Coord { x: 10.0, y: 10.0 }, w);
+    if d == Dimensions::ZeroDimensional {
+        assert!(op.centroid() == Some(Point(Coord { x: (3.0 + 20.0) / 3.0, y: (-2.0 + 20.0) / 3.0 })));
+    } else {
+        assert!(op.centroid() == Some(Point(Coord { x: 10.0, y: 10.0 })) && op.centroid_dimensions() == d);
+    }
+    op.add_coord(Coord { x: 100.0, y: 100.0 });
+    if d != Dimensions::ZeroDimensional { assert!(op.centroid() == Some(Point(Coord { x: 10.0, y: 10.0 }))); }
+}
+
+/// early-outs: points are ignored once something linear or areal was added, linear members once something areal
+/// was added -- and ONLY then.  A MultiLineString / LineString / Line added to a linear state contributes.
+#[cfg(kani)]
+#[kani::proof]
+#[kani::unwind(6)]
+#[kani::stub(f64::hypot, hypot_model)]
+fn c06_k_operation_early_outs() {
+    let d0 = any_dim();
+    kani::assume(d0 != Dimensions::Empty);
+    let mk = || { let mut op = CentroidOperation::<f64>::new(); op.add_centroid(d0, Coord { x: 1.0, y: 1.0 }, 5.0); op };
+    // line (0,0)-(3,4): length 5, midpoint (1.5, 2)
+    let mut lv = Vec::with_capacity(2); lv.push(Coord { x: 0.0, y: 0.0 }); lv.push(Coord { x: 3.0, y: 4.0 });
+    let ls = LineString(lv);
+    let mut mv = Vec::with_capacity(1); mv.push(ls.clone());
+    let mls = MultiLineString(mv);
+    let mut pv = Vec::with_capacity(1); pv.push(Point(Coord { x: 9.0, y: 9.0 }));
+    let mp = MultiPoint(pv);
+    let want_linear = match d0 {
+        Dimensions::TwoDimensional => Coord { x: 1.0, y: 1.0 },
+        Dimensions::OneDimensional => Coord { x: (5.0 + 7.5) / 10.0, y: (5.0 + 10.0) / 10.0 },
+        _ => Coord { x: 1.5, y: 2.0 },
+    };
+    let mut a = mk(); a.add_line_string(&ls);
+    assert!(a.centroid() == Some(Point(want_linear)));
+    let mut b = mk(); b.add_multi_line_string(&mls);
+    assert!(b.centroid() == Some(Point(want_linear)));
+    let mut c = mk(); c.add_line(&Line::new(Coord { x: 0.0, y: 0.0 }, Coord { x: 3.0, y: 4.0 }));
+    assert!(c.centroid() == Some(Point(want_linear)));
+    let mut e = mk(); e.add_multi_point(&mp);
+    let want_pt = if d0 == Dimensions::ZeroDimensional { Coord { x: (5.0 + 9.0) / 6.0, y: (5.0 + 9.0) / 6.0 } } else { Coord { x: 1.0, y: 1.0 } };
+    assert!(e.centroid() == Some(Point(want_pt)));
+}
+
+/// a polygon whose hole covers its shell exactly has zero area and falls back to the centroid of its OUTLINE
+/// (length-weighted segment midpoints), as a one-dimensional contribution
+#[cfg(kani)]
+#[kani::proof]
+#[kani::unwind(8)]
+#[kani::stub(f64::hypot, hypot_model)]
+fn c06_k_zero_area_polygon_falls_back_to_outline() {
+    // right triangle (0,0) (3,0) (0,4): outline = sides 3, 5, 4 with midpoints (1.5,0) (1.5,2) (0,2)
+    let ring = || { let mut v = Vec::with_capacity(8); v.push(Coord { x: 0.0, y: 0.0 }); v.push(Coord { x: 3.0, y: 0.0 }); v.push(Coord { x: 0.0, y: 4.0 }); v.push(Coord { x: 0.0, y: 0.0 }); LineString(v) };
+    let mut holes = Vec::with_capacity(1); holes.push(ring());
+    let p = Polygon::new(ring(), holes);
+    let mut op = CentroidOperation::<f64>::new();
+    op.add_polygon(&p);
+    assert!(op.centroid_dimensions() == Dimensions::OneDimensional);
+    let want = Coord { x: (3.0 * 1.5 + 5.0 * 1.5 + 4.0 * 0.0) / 12.0, y: (3.0 * 0.0 + 5.0 * 2.0 + 4.0 * 2.0) / 12.0 };
+    assert!(op.centroid() == Some(Point(want)));
+    // and a real areal member dominates it
+    op.add_centroid(Dimensions::TwoDimensional, Coord { x: 7.0, y: 7.0 }, 2.0);
+    assert!(op.centroid() == Some(Point(Coord { x: 7.0, y: 7.0 })));
+}
+
+/// public API: centroid is None exactly for empty geometries
+#[cfg(kani)]
+#[kani::proof]
+#[kani::unwind(6)]
+#[kani::stub(f64::hypot, hypot_model)]
+fn c06_k_centroid_none_iff_empty() {
+    assert!(LineString::<f64>(Vec::new()).centroid().is_none());
+    assert!(MultiPoint::<f64>(Vec::new()).centroid().is_none());
+    assert!(Polygon::<f64>::new(LineString(Vec::new()), Vec::new()).centroid().is_none());
+    assert!(MultiLineString::<f64>(Vec::new()).centroid().is_none());
+    let mut v = Vec::with_capacity(1); v.push(Coord { x: 2.0, y: 5.0 });
+    assert!(LineString(v).centroid() == Some(Point(Coord { x: 2.0, y: 5.0 })));
+}
 
 #[cfg(kani)]
 include!(concat!(env!("GEO_VERIF_DIR"), "/.work/playback/pb_c06.rs"));
